@@ -71,6 +71,7 @@ type vScenario struct {
 	CleanSort bool              ` + "`json:\"clean_sort\"`" + `
 	CleanOpts bool              ` + "`json:\"clean_opts\"`" + `
 	NoClean   bool              ` + "`json:\"no_clean\"`" + `
+	CleanTwice bool             ` + "`json:\"clean_twice\"`" + `
 	Roots     []string          ` + "`json:\"roots\"`" + `
 	Probe     string            ` + "`json:\"probe,omitempty\"`" + `
 }
@@ -282,6 +283,24 @@ func TestMain(m *testing.M) {
 			}
 		}()
 		f.Close()
+		if vscn.CleanTwice {
+			// Clean is called a second time in the same process (e.g. once to report, once to sort)
+			f2, _ := os.Create(os.Getenv("VERIF_OUTDIR") + "/clean2.out")
+			os.Stdout = f2
+			func() {
+				defer func() {
+					if r := recover(); r != nil {
+						vlog(map[string]any{"ev": "clean-panic", "text": fmt.Sprint(r)})
+					}
+				}()
+				if vscn.CleanOpts || vscn.CleanSort {
+					snaps.Clean(m, snaps.CleanOpts{Sort: vscn.CleanSort})
+				} else {
+					snaps.Clean(m)
+				}
+			}()
+			f2.Close()
+		}
 		os.Stdout = old
 		vdigest("post", false)
 		vlog(map[string]any{"ev": "clean-done"})
